@@ -339,7 +339,7 @@ struct Cfg {
   int seed = 0;          // pre-seeded job file pattern (0 = all AVAILABLE), see seed_status()
   std::string restart;   // restart pattern of the first process (and of the others unless restart2 is set)
   std::string restart2 = "=";  // restart pattern of processes 2.. ("=" : same as restart)
-  int fail = 0;          // job id whose (stub) evaluation FAILS with an error text (0 = none)
+  int fail = 0;          // job id whose (stub) evaluation FAILS with an error text (0 = none); -j: job j fails with an error text AND an output
   int crash_at = -1, crash_bytes = -1, scan = 0;
   bool recovery = false; // second phase after a crash: one fresh process with restart stat(ASSIGNED)
   bool ul = false;       // the instant after every thread-mutex release is a scheduling point too
@@ -447,9 +447,11 @@ void JobOp::Run() {
       vs_log(EV_EXEC, proc->pid * 100 + getId(), job->getId());
       io::log_abs(A_EXEC);
       Job::JobResult res;
-      if (job->getId() == proc->cfg.fail) {
+      if (job->getId() == std::abs(proc->cfg.fail)) {
         res.setStatus(Job::FAILED);
         res.setError("err" + std::to_string(job->getId()) + "by" + std::to_string(proc->pid));
+        // (a calculator may report a partial result together with the error, as the QM/MM calculator does)
+        if (proc->cfg.fail < 0) res.setOutput("out" + std::to_string(job->getId()) + "by" + std::to_string(proc->pid));
       } else {
         res.setStatus(Job::COMPLETE);
         res.setOutput("out" + std::to_string(job->getId()) + "by" + std::to_string(proc->pid));
@@ -666,10 +668,11 @@ static Verdict judge(const Cfg &c, const vsx::Exec &x) {
       long pid = it->second[0] / 100;
       std::string wanthost = host + ":" + std::to_string(pid);
       std::string wantout = "out" + std::to_string(j) + "by" + std::to_string(pid);
-      if (j == c.fail) {
+      if (j == std::abs(c.fail)) {
         std::string wanterr = "err" + std::to_string(j) + "by" + std::to_string(pid);
-        if (f.status != "FAILED" || !f.has_error || f.error != wanterr || f.host != wanthost || f.has_output)
-          bad(std::string(c.K > 1 ? "multiprocess" : "local") + "-failed-result-lost", "job " + std::to_string(j) + " failed in " + std::to_string(pid) + " with an error text but the final file says status=" + f.status + " host=" + f.host + " error=" + f.error + (f.has_output ? " (and carries an output)" : ""));
+        bool outok = c.fail > 0 ? !f.has_output : (f.has_output && f.output == wantout);
+        if (f.status != "FAILED" || !f.has_error || f.error != wanterr || f.host != wanthost || !outok)
+          bad(std::string(c.K > 1 ? "multiprocess" : "local") + "-failed-result-lost", "job " + std::to_string(j) + " failed in " + std::to_string(pid) + " with an error text but the final file says status=" + f.status + " host=" + f.host + " error=" + f.error + (f.has_output ? " (and carries the output " + f.output + ")" : " (no output)") + (c.fail < 0 ? "; the job had reported error AND output " + wantout : ""));
       } else if (f.status != "COMPLETE" || !f.has_output || f.output != wantout || f.host != wanthost)
         bad(std::string(c.K > 1 ? "multiprocess" : "local") + "-result-lost", "job " + std::to_string(j) + " executed by " + std::to_string(pid) + " but final file says status=" + f.status + " host=" + f.host + " output=" + f.output);
     } else if (it == execs.end()) {
@@ -996,8 +999,9 @@ int main(int argc, char **argv) {
     // a job whose evaluation fails: status FAILED and the error text must reach the file like any other result
     for (auto kt : std::vector<std::pair<int, int>>{{1, 1}, {1, 2}, {2, 1}})
       for (int jobs : {1, 2})
-        for (int failj : {1, 2}) {
-          if (failj > jobs || (!thorough && kt.first * kt.second > 1 && jobs == 1)) continue;
+        for (int failj : {1, 2, -1, -2}) {
+          if (std::abs(failj) > jobs || (!thorough && kt.first * kt.second > 1 && jobs == 1)) continue;
+          if (failj < 0 && !thorough && std::abs(failj) != jobs) continue;
           Cfg c; c.K = kt.first; c.T = kt.second; c.jobs = jobs; c.cache = 1; c.fail = failj;
           cfgs.push_back(c);
         }
